@@ -48,7 +48,7 @@ type (
 		Body   Expr
 		Pats   [][]Expr
 	}
-	EIte struct{ C, A, B Expr }
+	EIte    struct{ C, A, B Expr }
 	EMethod struct {
 		X    Expr
 		Name string
@@ -434,7 +434,7 @@ type Clause struct {
 	Text string
 	E    Expr
 	Pos  string
-	Idx  int // ordinal among clauses of this kind in the contract
+	Idx  int    // ordinal among clauses of this kind in the contract
 	Tag  string // optional "[C05]" label: which property the clause belongs to
 	Pkg  string // package the contract file belongs to: type names in the clause resolve there first
 }
@@ -468,7 +468,7 @@ type Contract struct {
 	File     string
 	Line     int
 	Induct   string
-	Caller   string // callsite contracts: the calling function
+	Caller   string   // callsite contracts: the calling function
 	Reveals  []string // opaque spec functions whose definition is available in this unit
 	As       string   // implements: the interface method whose contract the function must satisfy
 	Notes    []string
